@@ -991,8 +991,11 @@ class Num:
             return None
         k = n["k"]
         if k == "ref":
-            if n["id"] in st.vals:
-                return st.vals[n["id"]]
+            i, hops = n["id"], 0
+            while i not in st.vals and (fn.nodes.get(i) or {}).get("k") == "ref" and hops < 4:
+                i, hops = fn.nodes[i]["id"], hops + 1  # the id of a dropped wrapper: follow the alias to the element itself
+            if i in st.vals:
+                return st.vals[i]
             t = fn.d(n)
             # an element not executed on this path (should not happen): evaluate structurally
             return self.val(t, st) if t is not None else None
@@ -1111,12 +1114,19 @@ class Num:
                     st.cond[at] = {"nz": [("cmp", op, a, b)], "z": [("cmp", NEGOP[op], a, b)]}
                 return Poly.atom(at)
             if op in ("&&", "||"):
+                known = [x for x in (a, b) if x is not None]
+                for x in known:
+                    if x.is_const():  # one operand decides the result (both operands were evaluated above for their effects)
+                        if op == "||" and x.cval() != 0:
+                            return Poly.const(1)
+                        if op == "&&" and x.cval() == 0:
+                            return Poly.const(0)
                 at = self.fresh(st, "log", None, (0, 1))
-                if a is not None and b is not None:
+                if known:
                     if op == "&&":
-                        st.cond[at] = {"nz": [("ne0", a), ("ne0", b)], "z": []}
+                        st.cond[at] = {"nz": [("ne0", x) for x in known], "z": []}
                     else:
-                        st.cond[at] = {"nz": [], "z": [("eq0", a), ("eq0", b)]}
+                        st.cond[at] = {"nz": [], "z": [("eq0", x) for x in known]}
                 return Poly.atom(at)
             return self.arith(op, n, a, b, t, st)
         if k == "cond":
@@ -1738,6 +1748,7 @@ class Num:
         sub.inline_deny = getattr(self, "inline_deny", ())
         # frame switch: stash the caller's named locals, expose address-taken locals through their address atoms
         s0 = st.copy()
+        s0.vals, s0.cmps = {}, {}
         stash, stash_meta = {}, {}
         addr = {k[1:]: v for k, v in s0.env.items() if k.startswith("&v:") and len(v.t) == 1}
         for k in list(s0.env):
@@ -1836,6 +1847,9 @@ class Num:
                     s1.meta[k] = m
             for k, v in saved_notes.items():
                 s1.notes[k] = v
+            # element ids are per function: what the callee's elements evaluated to must not shadow the caller's
+            s1.vals = dict(st.vals)
+            s1.cmps = dict(st.cmps)
             s1.vals[e["id"]] = rv if ("w" in rt or rt.get("ptr")) else None
             outs.append(s1)
         self.n_atoms = max(self.n_atoms, sub.n_atoms)
